@@ -17,7 +17,12 @@ import (
 	"bufio"
 	"crypto/tls"
 	"errors"
+	"fmt"
+	"io"
 	"net"
+
+	ber "github.com/go-asn1-ber/asn1-ber"
+	"github.com/honeytrap/honeytrap/services/decoder"
 )
 
 type Conn struct {
@@ -34,6 +39,52 @@ func NewConn(c net.Conn) *Conn {
 		ConnReader: bufio.NewReader(c),
 		isTLS:      false,
 	}
+}
+
+// maxMessageSize bounds a single LDAP message
+const maxMessageSize = 4 * 1024 * 1024
+
+// ReadMessage reads one LDAPMessage. The ber decoder allocates by the lengths
+// announced inside the message, so the message is read as a whole (bounded) and
+// its nested lengths are checked against the bytes actually received first.
+func (c *Conn) ReadMessage() (*ber.Packet, error) {
+	var hdr, length int
+
+	for n := 2; ; n++ {
+		b, err := c.ConnReader.Peek(n)
+		if err != nil {
+			return nil, err
+		}
+
+		h, l, _, ok, err := decoder.BERHeader(b)
+		if err != nil {
+			return nil, err
+		}
+
+		if ok {
+			hdr, length = h, l
+			break
+		}
+
+		if n > 16 {
+			return nil, decoder.ErrBERTruncated
+		}
+	}
+
+	if hdr+length > maxMessageSize {
+		return nil, fmt.Errorf("ldap: message of %d bytes exceeds the maximum of %d", hdr+length, maxMessageSize)
+	}
+
+	buf := make([]byte, hdr+length)
+	if _, err := io.ReadFull(c.ConnReader, buf); err != nil {
+		return nil, err
+	}
+
+	if err := decoder.CheckBER(buf); err != nil {
+		return nil, err
+	}
+
+	return ber.DecodePacketErr(buf)
 }
 
 // StartTLS
